@@ -9,7 +9,11 @@ memory pressure (max_memory), injected OSErrors on the save/load path (sim.simfs
 (truncated behind the engine's back before LOAD/MERGE). Oracle: a sorted dict line -> text with
 symbolic line references (so RENUM can be modelled); after every op LIST (to a file every op, on
 the console for `list` ops and at the end) equals the model; PEEK walk of the line links from
-DS:30h; GOTO n lands on line n (prints its uid).
+DS:30h; GOTO n lands on line n (prints its uid). Memory-limited histories (small max_memory and / or
+CLEAR ,n[,m] during the history; long REM/DATA lines typed or MERGEd in front of, between and behind the
+existing lines): a refused line (Out of memory) leaves listing and links as they were, an accepted line,
+MERGE, LOAD or CLEAR leaves a program that fits: FRE(0) is not negative, FRE("") works when more than a few
+bytes are left, and A=1 succeeds when FRE reports 64 bytes or more.
 
 C14: one run = a generated program with every kind of line reference, entered in two Sessions
 (arm A and arm B) and run under the same poll-keyed event schedule so that it stops with traps
